@@ -54,16 +54,24 @@ Definition rkust_eqb (a b : res kust) : bool :=
 Definition tbl_render (tbl : list (string * list line)) (_ : kust) (n : string) : list line :=
   match assoc_get n tbl with Some ls => ls | None => ["{}"] end.
 
-(* model state: the file and what Unmarshal gives on it *)
-Definition mstep (e : env) (tbl : list (string * list line)) (st : file * res kust) (o : op)
-  : oclass * (file * res kust) :=
+(* model state: the file and what Unmarshal gives on it.
+   A write outside the domain of the go-yaml round-trip assumption (Cmd.write_is_plain: a re-emitted
+   comment line may be lexed as scalar content, so neither "the file decodes to what was written"
+   nor "the oracle table, computed from the decoded file, is the text of what was written" can be
+   relied on) is flagged: only the outcome class of that step is compared and the model continues
+   from the observed file. Such steps are rare (flavour B of the generator) and are covered by the
+   law oracles on the implementation. *)
+Definition mstep (e : env) (tbl : list (string * list line))
+           (st : file * res kust) (o : op)
+  : oclass * bool * (file * res kust) :=
   let '(f, rk) := st in
   match apply_op e (do k <- rk; Ok (fix_kustomization k)) o with
-  | Ok (Some k') => (COk, (write_file (tbl_render tbl) f k', Ok (canon k')))
-  | Ok None => (COk, st)
-  | Err => (CErr, st)
-  | Panic => (CPanic, st)
-  | Diverge => (CDiverge, st)
+  | Ok (Some k') =>
+      (COk, write_is_plain (tbl_render tbl) f k', (write_file (tbl_render tbl) f k', Ok (canon k')))
+  | Ok None => (COk, true, st)
+  | Err => (CErr, true, st)
+  | Panic => (CPanic, true, st)
+  | Diverge => (CDiverge, true, st)
   end.
 
 (* which observable of which step disagrees: (step index, what) *)
@@ -71,12 +79,21 @@ Fixpoint diag_steps (e : env) (i : nat) (st : file * res kust) (steps : list ste
   match steps with
   | [] => []
   | s :: t =>
-      let '(cls, st') := mstep e (s_render s) st (s_op s) in
+      let '(cls, plain, st') := mstep e (s_render s) st (s_op s) in
       let d1 := if oclass_eqb cls (s_class s) then [] else [(i, "class")] in
+      if negb plain then
+        match d1 with
+        | [] => diag_steps e (S i) (s_file s, s_k s) t
+        | d => d
+        end
+      else
       let d2 := if file_eqb (fst st') (s_file s) then [] else [(i, "file")] in
       let d3 := if rkust_eqb (snd st') (s_k s) then []
                 else match snd st', s_k s with
-                     | Ok a, Ok b => map (fun n => (i, n)) (diff_fields a b)
+                     | Ok a, Ok b => match diff_fields a b with
+                                     | [] => [(i, "typed-other")]
+                                     | d => map (fun n => (i, n)) d
+                                     end
                      | _, _ => [(i, "typed-class")]
                      end in
       match d1 ++ d2 ++ d3 with
@@ -85,6 +102,7 @@ Fixpoint diag_steps (e : env) (i : nat) (st : file * res kust) (steps : list ste
       end
   end.
 
+(* number of steps compared in full / by class only (printed into the evidence by the harness) *)
 Definition diag17 (c : case17) : list (nat * string) :=
   diag_steps (c_env c) 0 (c_file c, c_k c) (c_steps c).
 
